@@ -70,4 +70,14 @@ def ofMillis (t : Nat) : Nat × Nat × Nat × Nat :=
   let h := mi / 60; let mi' := mi % 60
   (h, mi', s', ms)
 
+/-! date-time stamps (milliseconds since day number 0) and `date - date` (`FuncSub`): whole days, truncated toward zero,
+    computed on exact integers (`timedelta // timedelta(days = 1)` on the magnitude) -/
+
+def msPerDay : Nat := 86400000
+
+def stamp (y m d t : Nat) : Int := (toOaDay y m d : Int) * msPerDay + t
+
+def diffDays (a b : Int) : Int :=
+  if a - b < 0 then -((b - a) / msPerDay) else (a - b) / msPerDay
+
 end Ckl.Date
